@@ -170,6 +170,10 @@ def compare_case(d, want=("rows", "obj"), full_alphabet=True, return_rows=False)
     res.time_rows = [dict(kind=q_["kind"], idx=q_["idx"], side=q_["side"], dep=q_["dep"]) for q_ in extra if q_["time_only"]]
     # objective
     f_ref = np.array(f_ref)
+    if not (np.all(np.isfinite(f_ref)) and all(np.all(np.isfinite(a["fp"])) for a in ref_rows)):
+        raise FloatingPointError("reference produced non-finite values on the alphabet (harness problem, not an observation)")
+    if not (np.all(np.isfinite(f_real)) and all(np.all(np.isfinite(a["fp"])) for a in rows_real)):
+        res.add("nonfinite", "value", "the real NLP evaluates to non-finite values where the reference is finite")
     if not NL.close(f_real, f_ref, 1e-8):
         res.add("obj", "value", "real=%s ref=%s" % (f_real[:2], f_ref[:2]))
     # read-back consistency gathered while building the reference
